@@ -450,6 +450,105 @@ def desugar_map_collect(fj, by_path, stats):
     return changed
 
 
+def desugar_try_for_each(fj, by_path, stats):
+    """`ITER.try_for_each(|x| BODY)` with BODY: Result<(), E> is
+        loop { match ITER.next() { None => break Ok(()), Some(x) => match BODY { Ok(()) => {}, Err(e) => break Err(e) } } }"""
+    body = fj["body"]
+    blocks = body["blocks"]
+    changed = False
+    for bi in range(len(blocks)):
+        b = blocks[bi]
+        t = b["term"]
+        if t["k"] != "call" or b["cleanup"] or t.get("target") is None or t.get("dest") is None or t["dest"]["p"]:
+            continue
+        v = t["func"].get("v") if t["func"].get("k") == "const" else None
+        if not isinstance(v, dict) or v.get("fn") != "std::iter::Iterator::try_for_each" or len(t["args"]) != 2:
+            continue
+        it_op, cl_op = t["args"]
+        # the receiver is `&mut iter`
+        if cl_op.get("k") != "move" or cl_op["pl"]["p"] or it_op.get("k") not in ("move", "copy") or it_op["pl"]["p"]:
+            continue
+        dest_ty = body["locals"][t["dest"]["l"]]["ty"]
+        if dest_ty.get("adt") != "std::result::Result":
+            continue
+        cg = _closure_of_local(blocks, by_path, cl_op["pl"]["l"])
+        if cg is None:
+            continue
+        g, ups = cg
+        gb = g["body"]
+        by_ref = gb["locals"][1]["ty"].get("k") == "ref"
+        self_ty = v.get("self_ty") or (v.get("targs") or [None])[0]
+        if self_ty is None:
+            continue
+        sp = t.get("sp")
+        lofs = len(body["locals"])
+        nl = len(gb["locals"])
+        l_opt, l_d, l_d2, l_err, l_unit = [lofs + nl + k for k in range(5)]
+        item_ty = gb["locals"][2]["ty"]
+        ret_ty = gb["locals"][0]["ty"]
+        extra = [
+            {"ty": {"s": "std::option::Option<%s>" % item_ty["s"], "k": "adt", "adt": "std::option::Option", "args": [item_ty]}},
+            {"ty": {"s": "isize", "k": "int"}},
+            {"ty": {"s": "isize", "k": "int"}},
+            {"ty": (ret_ty.get("args") or [ret_ty, ret_ty])[-1]},
+            {"ty": {"s": "()", "k": "tuple", "args": []}},
+        ]
+        base = len(blocks)
+        i_head, i_sw, i_item, i_ret, i_err, i_exit = [base + k for k in range(6)]
+        bofs = base + 6
+        new_blocks = []
+        try:
+            for gblk in gb["blocks"]:
+                nb = copy.deepcopy(gblk)
+                for st in nb["stmts"]:
+                    _remap_stmt(st, lofs)
+                nt = nb["term"]
+                if nt["k"] == "return":
+                    nb["term"] = {"k": "goto", "target": i_ret, "sp": nt.get("sp"), "exp": True}
+                else:
+                    _remap_term(nt, lofs, bofs)
+                _rewrite_upvars(nb, lofs + 1, by_ref, ups)
+                new_blocks.append(nb)
+        except ValueError:
+            continue
+        body["locals"].extend(copy.deepcopy(l) for l in gb["locals"])
+        body["locals"].extend(extra)
+
+        def P(l, proj=None):
+            return {"l": l, "p": proj or []}
+
+        def assign(pl, rv):
+            return {"k": "assign", "pl": pl, "rv": rv, "sp": sp, "exp": True}
+
+        def goto(tg):
+            return {"k": "goto", "target": tg, "sp": sp, "exp": True}
+
+        nxt = _callee_json("std::iter::Iterator::next", "<%s as std::iter::Iterator>::next" % self_ty["s"], "next", "core", self_ty=self_ty, trait="std::iter::Iterator", targs=[self_ty])
+        blk_head = {"cleanup": False, "stmts": [],
+                    "term": {"k": "call", "func": {"k": "const", "ty": "fn", "v": nxt}, "args": [copy.deepcopy(it_op)], "dest": P(l_opt), "target": i_sw, "sp": sp, "exp": True}}
+        blk_sw = {"cleanup": False, "stmts": [assign(P(l_d), {"rv": "discr", "pl": P(l_opt), "adt": "std::option::Option", "variants": [[0, "None"], [1, "Some"]]})],
+                  "term": {"k": "switch", "discr": {"k": "move", "pl": P(l_d)}, "targets": [[0, i_exit]], "otherwise": i_item, "sp": sp, "exp": True}}
+        blk_item = {"cleanup": False, "stmts": [assign(P(lofs + 2), {"rv": "use", "op": {"k": "move", "pl": P(l_opt, [{"down": 1, "name": "Some"}, {"f": 0, "name": "0", "ty": item_ty["s"], "adt": "std::option::Option"}])}})],
+                    "term": goto(bofs)}
+        blk_ret = {"cleanup": False, "stmts": [assign(P(l_d2), {"rv": "discr", "pl": P(lofs), "adt": "std::result::Result", "variants": [[0, "Ok"], [1, "Err"]]})],
+                   "term": {"k": "switch", "discr": {"k": "move", "pl": P(l_d2)}, "targets": [[0, i_head]], "otherwise": i_err, "sp": sp, "exp": True}}
+        blk_err = {"cleanup": False, "stmts": [
+            assign(P(l_err), {"rv": "use", "op": {"k": "move", "pl": P(lofs, [{"down": 1, "name": "Err"}, {"f": 0, "name": "0", "adt": "std::result::Result"}])}}),
+            assign(copy.deepcopy(t["dest"]), {"rv": "aggregate", "agg": "adt", "adt": "std::result::Result", "variant": "Err", "vidx": 1, "fields": ["0"], "ops": [{"k": "move", "pl": P(l_err)}]})],
+            "term": goto(t["target"])}
+        blk_exit = {"cleanup": False, "stmts": [
+            assign(P(l_unit), {"rv": "aggregate", "agg": "tuple", "ops": []}),
+            assign(copy.deepcopy(t["dest"]), {"rv": "aggregate", "agg": "adt", "adt": "std::result::Result", "variant": "Ok", "vidx": 0, "fields": ["0"], "ops": [{"k": "move", "pl": P(l_unit)}]})],
+            "term": goto(t["target"])}
+        blocks.extend([blk_head, blk_sw, blk_item, blk_ret, blk_err, blk_exit])
+        blocks.extend(new_blocks)
+        b["term"] = goto(i_head)
+        g["absorbed"] = True
+        stats.setdefault(fj["path"], []).append(g["path"] + " (try_for_each)")
+        changed = True
+    return changed
+
+
 def desugar_struct_update(facts_json):
     """`S { f: v, ..base }` is MIR `S { f: v, g: move base.g, h: copy base.h, .. }`:
     rewrite it into what it means, `x = move base; x.f = v`, so that a record
@@ -535,7 +634,7 @@ def inline_helpers(facts_json, anchors=None):
     desugar_parse(facts_json)
     desugar_struct_update(facts_json)
     for _ in range(MAX_ROUNDS):
-        if not any([desugar_for_each(f, by_path, stats) or desugar_map_collect(f, by_path, stats) for f in facts_json["fns"]]):
+        if not any([desugar_for_each(f, by_path, stats) or desugar_map_collect(f, by_path, stats) or desugar_try_for_each(f, by_path, stats) for f in facts_json["fns"]]):
             break
     # helpers first, so that nested helpers are already expanded when spliced
     for _ in range(MAX_ROUNDS):
